@@ -64,3 +64,158 @@ def c01_frame(src):
 def _site_ordinal(sites, m, q, n):
     same = [x for x in sites if x[0] is m and x[1] == q]
     return same.index((m, q, n))
+
+
+def c07_asserts(src):
+    """-O half of C07: the conversion module contains no assert statement and no __debug__ test, so
+    disabling assertions cannot change which conversions succeed or any returned value; the asserts
+    elsewhere in the library are listed (none lies on a conversion/comparison path)."""
+    prog = Program(src)
+    res = {}
+    conv = prog.modules["measured.conversions"]
+    asserts = [n.lineno for n in ast.walk(conv.tree) if isinstance(n, ast.Assert)]
+    debug = [n.lineno for n in ast.walk(conv.tree) if isinstance(n, ast.Name) and n.id == "__debug__"]
+    res["C07/static:conversions-has-no-assert"] = {"status": "discharged" if not asserts and not debug else "refuted",
+                                                   "note": "assert at lines %s, __debug__ at %s" % (asserts, debug) if asserts or debug else "", "ms": 0, "backend": "static-scan"}
+    # asserts in methods that conversions / comparisons / + / - call
+    core = prog.modules["measured"]
+    risky = []
+    for cname in ("Quantity", "Unit", "Prefix", "Dimension"):
+        ci = core.classes[cname]
+        for mname, fi in ci.methods.items():
+            if mname in ("__abs__",):
+                continue  # not on a conversion / comparison path; isinstance check of abs() result
+            for n in ast.walk(fi.node):
+                if isinstance(n, ast.Assert):
+                    risky.append("%s.%s line %d" % (cname, mname, n.lineno))
+    res["C07/static:no-assert-on-conversion-paths"] = {"status": "discharged" if not risky else "undecided", "note": "; ".join(risky), "ms": 0, "backend": "static-scan"}
+    # only ConversionNotFound is caught around conversions in the comparison operators
+    bad = []
+    for mname in ("__eq__", "__lt__"):
+        fi = core.classes["Quantity"].methods[mname]
+        for n in ast.walk(fi.node):
+            if isinstance(n, ast.ExceptHandler):
+                t = ast.unparse(n.type) if n.type is not None else "<bare>"
+                if t != "conversions.ConversionNotFound":
+                    bad.append("Quantity.%s catches %s" % (mname, t))
+    res["C07/static:comparisons-catch-only-ConversionNotFound"] = {"status": "discharged" if not bad else "refuted", "note": "; ".join(bad), "ms": 0, "backend": "static-scan"}
+    return res
+
+
+def _calls(fn_node):
+    out = set()
+    for n in ast.walk(fn_node):
+        if isinstance(n, ast.Call):
+            out.add(ast.unparse(n.func))
+    return out
+
+
+def c08_memo(src):
+    """C08: every memoised function of the conversion module is invalidated by every function that
+    writes the equivalence tables; nothing but equate/translate writes them; memoised functions
+    elsewhere do not read them."""
+    prog = Program(src)
+    res = {}
+    conv = prog.modules["measured.conversions"]
+    memo = sorted(n for n, f in conv.functions.items() if f.memo)
+    writers = {}
+    for name, f in conv.functions.items():
+        for n in ast.walk(f.node):
+            if isinstance(n, ast.Subscript) and isinstance(n.ctx, (ast.Store, ast.Del)):
+                base = n.value
+                while isinstance(base, ast.Subscript):
+                    base = base.value
+                if isinstance(base, ast.Name) and base.id in ("_ratios", "_offsets"):
+                    writers.setdefault(name, set()).add(base.id)
+            if isinstance(n, ast.Call) and isinstance(n.func, ast.Attribute) and n.func.attr in ("update", "setdefault", "pop", "clear") \
+                    and isinstance(n.func.value, (ast.Name, ast.Subscript)) and ast.unparse(n.func.value).startswith(("_ratios", "_offsets")):
+                writers.setdefault(name, set()).add(ast.unparse(n.func.value))
+    extra = sorted(w for w in writers if w not in ("equate", "translate"))
+    res["C08/static:only-equate-and-translate-write-the-tables"] = {"status": "discharged" if not extra else "refuted",
+                                                                    "note": "also written by: %s" % extra if extra else "", "ms": 0, "backend": "static-scan"}
+
+    def cleared_by(fname, depth=0, seen=None):
+        seen = seen or set()
+        if fname in seen or fname not in conv.functions or depth > 3:
+            return set()
+        seen.add(fname)
+        out = set()
+        for c in _calls(conv.functions[fname].node):
+            if c.endswith(".cache_clear"):
+                out.add(c[:-len(".cache_clear")])
+            elif c in conv.functions:
+                out |= cleared_by(c, depth + 1, seen)
+        return out
+
+    for w in ("equate", "translate"):
+        missing = [m for m in memo if m not in cleared_by(w)]
+        res["C08/static:%s-invalidates-every-memoised-function" % w] = {
+            "status": "discharged" if not missing else "refuted", "note": "not cleared: %s (memoised: %s)" % (missing, memo) if missing else "memoised: %s" % memo,
+            "ms": 0, "backend": "static-scan"}
+    # the invalidation must come after the last table write (syntactic order in the body)
+    for w in ("equate", "translate"):
+        body = conv.functions[w].node.body
+        last_write = max([i for i, st in enumerate(body) for n in ast.walk(st) if isinstance(n, ast.Subscript) and isinstance(n.ctx, ast.Store)
+                          and ast.unparse(n).startswith(("_ratios", "_offsets"))] or [-1])
+        clear_at = [i for i, st in enumerate(body) for c in _calls(st) if c.endswith(".cache_clear") or (c in conv.functions and cleared_by(c))]
+        ok = clear_at and max(clear_at) > last_write
+        res["C08/static:%s-invalidates-after-its-last-write" % w] = {"status": "discharged" if ok else "refuted", "note": "", "ms": 0, "backend": "static-scan"}
+    # memoised functions outside conversions must not depend on the tables
+    core = prog.modules["measured"]
+    dep = []
+    for c in core.classes.values():
+        for f in c.methods.values():
+            if f.memo and any(isinstance(n, ast.Name) and n.id == "conversions" for n in ast.walk(f.node)):
+                dep.append(f.qual)
+    res["C08/static:other-memoised-functions-do-not-read-the-tables"] = {"status": "discharged" if not dep else "refuted", "note": "; ".join(dep), "ms": 0, "backend": "static-scan"}
+    # no other module-level mutable state is consulted by the planner (ids, time, randomness)
+    sus = [ast.unparse(n.func) for f in conv.functions.values() for n in ast.walk(f.node) if isinstance(n, ast.Call)
+           and ast.unparse(n.func) in ("id", "hash", "time.time", "random.random", "random.choice")]
+    res["C08/static:planner-uses-no-identity-time-or-randomness"] = {"status": "discharged" if not sus else "undecided", "note": "; ".join(sus), "ms": 0, "backend": "static-scan"}
+    return res
+
+
+def memo_args(src):
+    """memo-soundness (C03, C08, C20): an lru_cache keys on == / hash of the arguments, so a memoised
+    function may only take interned objects (Dimension, Prefix, Unit: equality is identity) as
+    arguments; int/float/Decimal keys compare equal across types (1 == 1.0 == Decimal(1)) and a
+    cached result of one type would be returned for another."""
+    prog = Program(src)
+    res = {}
+    ok_types = {"Dimension", "Prefix", "Unit", '"Dimension"', '"Prefix"', '"Unit"'}
+    for f in prog.all_functions():
+        if not f.memo or f.module in ("measured.hypothesis", "measured.pytest"):
+            continue
+        bad = []
+        for p in f.params:
+            if p == "self" and f.cls in ("Dimension", "Prefix", "Unit"):
+                continue
+            ann = f.annotations.get(p)
+            t = ast.unparse(ann).strip("'\"") if ann is not None else None
+            if t not in ("Dimension", "Prefix", "Unit"):
+                bad.append("%s: %s" % (p, t))
+        oid = "memo/static:%s-keys-are-interned-objects" % f.qual.replace("measured.", "")
+        res[oid] = {"status": "discharged" if not bad else "refuted", "ms": 0, "backend": "static-scan", "complete": True,
+                    "note": "memoised function keyed on non-interned arguments (%s): equal keys of different types share one cache entry" % ", ".join(bad) if bad else ""}
+    return res
+
+
+def c08_state(src):
+    """the conversion module keeps no mutable module-level state besides the two equivalence tables
+    (any other cache of query outcomes would make results depend on the query history)"""
+    prog = Program(src)
+    conv = prog.modules["measured.conversions"]
+    extra = []
+    for node in conv.tree.body:
+        tgt, val = None, None
+        if isinstance(node, ast.Assign) and len(node.targets) == 1 and isinstance(node.targets[0], ast.Name):
+            tgt, val = node.targets[0].id, node.value
+        elif isinstance(node, ast.AnnAssign) and isinstance(node.target, ast.Name) and node.value is not None:
+            tgt, val = node.target.id, node.value
+        if tgt is None or tgt in ("_ratios", "_offsets"):
+            continue
+        if isinstance(val, (ast.Dict, ast.List, ast.Set)) or (isinstance(val, ast.Call) and ast.unparse(val.func) in ("dict", "list", "set", "defaultdict", "OrderedDict", "collections.defaultdict")):
+            extra.append("%s (line %d)" % (tgt, node.lineno))
+    return {"C08/static:no-other-mutable-module-state-in-conversions": {
+        "status": "discharged" if not extra else "refuted", "ms": 0, "backend": "static-scan", "complete": True,
+        "note": "mutable module-level state besides the equivalence tables: %s" % ", ".join(extra) if extra else ""}}
